@@ -173,6 +173,26 @@ for _ in range(40):
         w = v[slice(a, b, c)]; return ((w._start_address, w._end_address),) + st(v)   # NB after the constructor's clipping
     add("(fun r => match r with | Except.ok ((a, b), t) => Except.ok ((a, max a b), t) | Except.error e => Except.error e) (SlicedMemoryIO_getitem %s (%s, %s, %s))" % (args, O(a), O(b), O(c)), exc(g))
 
+from rig.utils.contexts import ContextMixin
+class RecSig(MachineController):
+    def __init__(self):
+        ContextMixin.__init__(self, {})
+        self.calls = []
+    def _send_scp(self, *args):
+        self.calls.append(tuple(int(a) for a in args))
+        class R(object):
+            arg1 = 5
+        return R()
+for sig in list(range(-2, 18)) + [255]:
+    app = rng.randint(0, 255)
+    m = RecSig()
+    def hs():
+        m.send_signal(sig, app); return m.calls
+    add("MachineController_send_signal %s %s" % (L(sig), L(app)), exc(hs))
+    m2 = RecSig()
+    def hc():
+        m2.count_cores_in_state(sig, app); return m2.calls
+    add("MachineController_count_cores_in_state %s %s" % (L(sig), L(app)), exc(hc))
 import warnings as _w
 class PRec(object):
     _freed = False
